@@ -372,15 +372,20 @@ func runOnce(sv *srv, storeID string, rq request, mode string, ms int) outcome {
 	default:
 		ctx, cancel = context.WithCancel(context.Background())
 	}
-	done := make(chan string, 1)
+	type fin struct {
+		res string
+		at  time.Time
+	}
+	done := make(chan fin, 1)
 	start := time.Now()
 	go func() {
 		defer func() {
 			if p := recover(); p != nil {
-				done <- "PANIC:" + strings.ReplaceAll(fmt.Sprint(p), " ", "_")
+				done <- fin{"PANIC:" + strings.ReplaceAll(fmt.Sprint(p), " ", "_"), time.Now()}
 			}
 		}()
-		done <- call(ctx, sv, storeID, rq)
+		r := call(ctx, sv, storeID, rq)
+		done <- fin{r, time.Now()}
 	}()
 	var timer *time.Timer
 	if mode == "cancel" {
@@ -393,15 +398,32 @@ func runOnce(sv *srv, storeID string, rq request, mode string, ms int) outcome {
 		bound = hangCap
 	}
 	o := outcome{g0: g0, t: "ontime"}
+	// The verdict is taken from the time the call itself finished, never from which channel of a select fired:
+	// when the whole process is stalled (an overloaded machine) both become ready at once and select picks at random.
+	var f fin
+	got := false
 	select {
-	case o.res = <-done:
+	case f = <-done:
+		got = true
 	case <-time.After(bound):
-		o.t = "late"
 		select {
-		case o.res = <-done:
+		case f = <-done:
+			got = true
 		case <-time.After(hangCap):
-			o.t = "hang"
-			o.res = "none"
+			select {
+			case f = <-done:
+				got = true
+			default:
+			}
+		}
+	}
+	if !got {
+		o.t = "hang"
+		o.res = "none"
+	} else {
+		o.res = f.res
+		if f.at.Sub(start) > bound {
+			o.t = "late"
 		}
 	}
 	_ = start
